@@ -367,9 +367,15 @@ class Runner:
         k = rng.choice([0, 0, 1, 1, 2])
         sargs = [(bad_sargs(rng) if rng.random() < 0.08 else good_sargs(rng)) for _ in range(k)]
         inp = self._inp = P.line('new', P.e_str(s), [len(sargs)], *[P.e_sarg(a) for a in sargs])
-        out = self.call(lambda: self.A(s, *[P.build_sarg(a, self.mod) for a in sargs]))
+        built = [P.build_sarg(a, self.mod) for a in sargs]
+        before = [[repr(q) for q in b_] if (isinstance(b_, list) and a_[0] == 'list' and not any(q[0] == 'selfref' for q in a_[1])) else None
+                  for a_, b_ in zip(sargs, built)]
+        out = self.call(lambda: self.A(s, *built))
         self.count('new', out)
         viol = self.c09(out, 'new', repr((s, sargs)))
+        for b_, was in zip(built, before):
+            if was is not None and [repr(q) for q in b_] != was:
+                viol.append(('C08', 'arg_unchanged', 'settings list modified by the constructor: %s -> %r' % (was, b_)))
         if out[0] == 'err' and not sargs:
             # parsing a str never fails: what is not understood is kept as text or thrown out
             viol.append(('C02', 'parse_total', 'AnsiString(%r) raises %r' % (s, out[1])))
